@@ -52,7 +52,8 @@ class Injected(Exception):
 class Ctx:
     """Per-case build context: call log, injected exception objects, optional scheduler."""
 
-    def __init__(self, sched=None):
+    def __init__(self, sched=None, compact=False):
+        self.compact = compact  # outputs are (fid, i, crc(args)) instead of nested terms (cyclic programs)
         self.log: list = []  # (fid, args) in invocation order
         self.events: list = []  # ("enter"|"exit", fid) for in-flight accounting
         self.injected: dict = {}
@@ -122,9 +123,10 @@ def make_func(ctx: Ctx, spec: dict, flavour: str):
         if kind == "func":
             if nout == 0:
                 return None
+            body = crc(a) if ctx.compact else a
             if nout == 1:
-                return (fid, 0, a)
-            return tuple((fid, i, a) for i in range(nout))
+                return (fid, 0, body)
+            return tuple((fid, i, body) for i in range(nout))
         if kind == "ifelse":
             return bool(table[crc(a) % len(table)])
         if kind == "route":
